@@ -337,6 +337,26 @@ theorem absorb_idem (r : Bool) (x : Res) : absorb r (absorb r x) = absorb r x :=
 section Sem
 variable (names : List String)
 
+theorem getRecGo_eq_valAt : ∀ (ks : List String) (d : Slots), getRecGo names d ks = valAt names (.dict d) ks
+  | [], d => by simp [getRecGo, valAt]
+  | [k], d => by
+    simp only [getRecGo, valAt]
+    cases lookupKey names d k with
+    | none => simp
+    | some w => simp
+  | k :: k' :: rest, d => by
+    simp only [getRecGo, valAt]
+    cases h : lookupKey names d k with
+    | none => simp
+    | some w =>
+      cases w with
+      | leaf a => simp [valAt]
+      | dict l => simp [getRecGo_eq_valAt (k' :: rest) l]
+
+theorem getRecursively_eq_valAt (d : Slots) (k : KeyArg) :
+    getRecursively names d k = valAt names (.dict d) k.keys := by
+  rw [getRecursively, getRecGo_eq_valAt]
+
 theorem semAny_eq_orRes (r : Bool) (l : List Spec) (v : Item) :
     semAny names r l v = orRes (l.map (fun s => sem names r s v)) := by
   induction l with
@@ -403,7 +423,7 @@ theorem mk_sem : ∀ (s : Spec) (r : Bool) (o : Obj) (v : Item),
     simp [call, sem, (items_sem l r' os v hos).2]
   | .selCtx k p r', r, o, v, h => by
     simp [mkSelector, Spec.isInst, inner] at h; subst h
-    cases hg : getRecursively names (v.context names.length) k <;> simp [call, sem, hg]
+    cases hg : valAt names (.dict (v.context names.length)) k.keys <;> simp [call, sem, getRecursively_eq_valAt, hg]
   | .bad, r, o, v, h => by
     simp [mkSelector, Spec.isInst, inner] at h
 theorem items_sem : ∀ (l : List Spec) (r : Bool) (os : List Obj) (v : Item),
@@ -511,7 +531,7 @@ theorem sem_false : ∀ (s : Spec) (v : Item), s.allRoe false = true → s.hasBa
   | .selCtx k p r, v, ha, _ => by
     simp only [Spec.allRoe, beq_iff_eq] at ha
     subst ha
-    cases hg : getRecursively names (v.context names.length) k <;> simp [sem, semB, hg, absorb_false_ok]
+    cases hg : valAt names (.dict (v.context names.length)) k.keys <;> simp [sem, semB, hg, absorb_false_ok]
   | .bad, _, _, hb => by simp [Spec.hasBad] at hb
 theorem semL_false : ∀ (l : List Spec) (v : Item), allRoeL false l = true → hasBadL l = false →
     semAll names false l v = .ok (semBAll names l v) ∧ semAny names false l v = .ok (semBAny names l v)
@@ -553,7 +573,7 @@ theorem sem_total : ∀ (s : Spec) (r : Bool) (v : Item), s.totalOn names v = tr
     simp [sem, semB, (semL_total l r' v ht hb).2]
   | .selCtx k p r', _, v, ht, _ => by
     simp only [Spec.totalOn] at ht
-    cases hg : getRecursively names (v.context names.length) k with
+    cases hg : valAt names (.dict (v.context names.length)) k.keys with
     | none => simp [sem, semB, hg]
     | some sub =>
       simp only [hg] at ht
@@ -572,33 +592,14 @@ theorem semL_total : ∀ (l : List Spec) (r : Bool) (v : Item), totalOnL names v
     cases semB names s v <;> simp [h2.1, h2.2]
 end
 
-theorem getRecGo_eq_valAt : ∀ (ks : List String) (d : Slots), getRecGo names d ks = valAt names (.dict d) ks
-  | [], d => by simp [getRecGo, valAt]
-  | [k], d => by
-    simp only [getRecGo, valAt]
-    cases lookupKey names d k with
-    | none => simp
-    | some w => simp
-  | k :: k' :: rest, d => by
-    simp only [getRecGo, valAt]
-    cases h : lookupKey names d k with
-    | none => simp
-    | some w =>
-      cases w with
-      | leaf a => simp [valAt]
-      | dict l => simp [getRecGo_eq_valAt (k' :: rest) l]
-
 /-- `contains` walks all levels but the last through dictionaries and tests the last one -/
 theorem containsGo_spec : ∀ (init : List String) (v : Val) (last : String),
     containsGo names v (init ++ [last]) =
-      match valAt names v init with
-      | none => false
-      | some (.dict l) => (lookupKey names l last).isSome
-      | some (.leaf a) => pyStr a == last
-  | [], .dict l, last => by simp [containsGo, valAt]
-  | [], .leaf a, last => by simp [containsGo, valAt]
+      containsLast names last (valAt names v init)
+  | [], .dict l, last => by simp [containsGo, valAt, containsLast]
+  | [], .leaf a, last => by simp [containsGo, valAt, containsLast]
   | k :: rest, .leaf a, last => by
-    cases rest <;> simp [containsGo, valAt]
+    cases rest <;> simp [containsGo, valAt, containsLast]
   | k :: rest, .dict l, last => by
     have ih := fun w => containsGo_spec rest w last
     cases hr : rest ++ [last] with
@@ -606,7 +607,7 @@ theorem containsGo_spec : ∀ (init : List String) (v : Val) (last : String),
     | cons k' r' =>
       rw [List.cons_append, hr, containsGo, valAt]
       · cases hl : lookupKey names l k with
-        | none => simp
+        | none => simp [containsLast]
         | some w => simp only []; rw [← hr, ih w]
       · intro h; cases h
 
@@ -1189,5 +1190,23 @@ theorem flatten_filters_perm (key : Item → Slots) (vs : List Item) : ∀ (L : 
     apply List.filter_congr
     intro x _
     simp [List.mem_cons]
+
+theorem eraseDups_replicate {α : Type} [BEq α] [LawfulBEq α] (a : α) : ∀ n, (List.replicate (n + 1) a).eraseDups = [a]
+  | 0 => by simp [List.eraseDups_cons]
+  | n + 1 => by
+    rw [List.replicate_succ, List.eraseDups_cons]
+    have : List.filter (fun b => !b == a) (List.replicate (n + 1) a) = [] := by
+      rw [List.filter_eq_nil_iff]
+      intro x hx
+      rw [List.mem_replicate] at hx
+      simp [hx.2]
+    rw [this]; rfl
+
+theorem getL_exclude_all : ∀ (k : Nat) (l : Slots), getL (.node false [] []) k l = List.replicate l.length none
+  | _, [] => by simp [getL]
+  | k, none :: r => by rw [getL, getL_exclude_all (k + 1) r]; simp [List.replicate_succ]
+  | k, some v :: r => by
+    rw [getL, getL_exclude_all (k + 1) r]
+    simp [lookupSub, List.replicate_succ]
 
 end Lena.C15
